@@ -54,6 +54,9 @@ type World struct {
 
 	census *Census
 	argSite *ssa.BasicBlock // scratch: call site whose arguments are being traced (B-ARGS)
+	curProp string          // property being decided (relevance.go)
+	implNamesCache map[*ssa.Function][]string
+	faultScopeCache map[*ssa.Function]bool
 }
 
 func loadWorld(repo string, tags string) (*World, error) {
